@@ -324,8 +324,20 @@ def _at_least_one_tract(ctx):
         if isinstance(n, ast.If) and any(isinstance(s, ast.Return) for s in n.body) \
                 and any(norm(s) == 'self.blocks.append(text)' for s in n.body):
             disj = [norm(v) for v in n.test.values] if isinstance(n.test, ast.BoolOp) and isinstance(n.test.op, ast.Or) else [norm(n.test)]
-            if any(d == f"not {m}" for d in disj for m in passed):
+            if any(d in (f"not {m}", f"len({m}) == 0") for d in disj for m in passed):
                 guard_ok = True
+    # or: the helpers are called under a condition that requires the list to be non-empty
+    def needs_truthy(call):
+        for t, pol in guards(call):
+            conj = [norm(v) for v in t.values] if isinstance(t, ast.BoolOp) and isinstance(t.op, ast.And) else [norm(t)]
+            disj = [norm(v) for v in t.values] if isinstance(t, ast.BoolOp) and isinstance(t.op, ast.Or) else [norm(t)]
+            if pol and any(c in passed or c in {f"len({m}) > 0" for m in passed} for c in conj):
+                return True
+            if not pol and any(d in {f"not {m}" for m in passed} for d in disj):
+                return True
+        return False
+    if helpers and all(needs_truthy(h) for h in helpers):
+        guard_ok = True
     ctx.check(guard_ok, 'SINK', 'the chunker keeps the whole text as one block when no Twp/Rge qualifies',
               f"`not {sorted(passed)[0] if passed else '?'}` -> blocks.append(text); return",
               "the segment helpers can run on an empty match list (the early return no longer tests the list they "
